@@ -201,6 +201,7 @@ type decLine struct {
 }
 
 var decLineNo int
+var decFailingDoc = []byte("<a><b>text<c></b></a>")
 
 func replayDec(line []byte, a *Acc) {
 	var l decLine
@@ -235,6 +236,8 @@ func replayDec(line []byte, a *Acc) {
 			var m mxj.Map
 			var err error
 			entry := "NewMapXml"
+			// a decode that FAILS (mismatched end tag after text and a child) comes first: nothing of it may show in the next result
+			mxj.NewMapXml(decFailingDoc, o.cast)
 			if p := guard(func() {
 				switch (decLineNo + cases) % 4 {
 				case 1:
@@ -256,6 +259,21 @@ func replayDec(line []byte, a *Acc) {
 			}
 			if got := tagged.CanonGo(m); got != exp {
 				one("dec:differs:"+decDiffClass(o), fmt.Sprintf("%s(%q) = %s, conventions give %s", entry, doc, short(got), short(exp)))
+				continue
+			}
+			// the returned Map belongs to the caller: after it was filled, the same document decodes to the same Map again (sampled)
+			if (decLineNo+cases)%8 == 0 && m != nil {
+				m["zz-added-by-caller"] = "1"
+				for k, v := range m {
+					if mm, ok := v.(map[string]interface{}); ok {
+						mm["zz-added-by-caller"] = "1"
+						_ = k
+					}
+				}
+				m2, err2 := mxj.NewMapXml(doc, o.cast)
+				if err2 != nil || tagged.CanonGo(m2) != exp {
+					one("dec:second-call-differs", fmt.Sprintf("after the Map returned for %q was filled by the caller, NewMapXml gives %s (err %v), conventions give %s", doc, short(tagged.CanonGo(m2)), err2, short(exp)))
+				}
 			}
 		}
 	}
@@ -552,6 +570,27 @@ func replayEncv(line []byte, a *Acc) {
 				continue
 			}
 		}
+		// the validity check on top: a well-formed result is returned unchanged (compact and indented), an ill-formed one is an error
+		if c.Kind == "xml" || c.Kind == "indentroot" {
+			mxj.XmlCheckIsValid(true)
+			var vb, vbi []byte
+			var ve, vei error
+			p := guard(func() { vb, ve = mv.Xml(); vbi, vei = mv.XmlIndent("", "  ") })
+			mxj.XmlCheckIsValid(false)
+			if p != "" {
+				one("encv:checkvalid-panic", p)
+			} else if c.Kind == "xml" {
+				if wf := wellFormed([]byte(c.X)) == nil; wf && (ve != nil || string(vb) != c.X) {
+					one("encv:xml:checkvalid:bytes", fmt.Sprintf("with XmlCheckIsValid(true) Map.Xml() = %q (err %v), without it %q", vb, ve, c.X))
+				} else if !wf && ve == nil {
+					one("encv:xml:checkvalid:silent", fmt.Sprintf("with XmlCheckIsValid(true) Map.Xml() returned the ill-formed %q without an error", vb))
+				}
+			} else if bi != nil && erri == nil {
+				if wf := wellFormed(bi) == nil; wf && (vei != nil || string(vbi) != string(bi)) {
+					one("encv:indentroot:checkvalid:bytes", fmt.Sprintf("with XmlCheckIsValid(true) Map.XmlIndent() = %q (err %v), without it %q", vbi, vei, bi))
+				}
+			}
+		}
 		if c.One && c.Kind != "indentroot" {
 			m2, derr := mxj.NewMapXml(b)
 			if derr != nil || tagged.CanonGo(m2) != c.Dec.Norm() {
@@ -695,6 +734,16 @@ func replaySeq(line []byte, a *Acc) {
 		if p := guard(func() { bi, e2 = ms.XmlIndent("", "  "); bb, e3 = mxj.BeautifyXml(doc, "", " ") }); p != "" {
 			one("seq:indent-panic:"+mixed, p)
 			continue
+		}
+		// the same MapSeq after a JSON round trip (Copy): its sequence numbers are float64 now, the encoding is the same
+		if cp, cerr := mxj.Map(ms).Copy(); cerr == nil {
+			var cb []byte
+			var ce error
+			if p := guard(func() { cb, ce = mxj.MapSeq(cp).Xml() }); p != "" {
+				one("seq:after-copy-panic:"+mixed, p)
+			} else if ce != nil || string(cb) != string(b) {
+				one("seq:after-copy:"+mixed, fmt.Sprintf("MapSeq.Xml() after Map.Copy() = %q (err %v), before %q", cb, ce, b))
+			}
 		}
 		hl.add("MapSeq.Xml() under "+g.Code, b)
 		hl.add("MapSeq.XmlIndent() under "+g.Code, bi)
